@@ -81,15 +81,21 @@ def run_core(ctx, prop, need_stats=(), need_shapes=(), sim_cfg="SIM_core", mc_qu
     wd = vlib.workdir(prop)
     violations = []
     # --- 1. exhaustive bounded model checking of the invariants
-    mc_cfg = mc_quick if tier == "quick" else mc_thorough
-    mc = vlib.tlc("MC_core", cfg=mc_cfg, workers=6 if tier == "quick" else 12, timeout=240 if tier == "quick" else 3000,
-                  coverage=False, name=f"{prop}-mc", xmx="10g")
-    if mc.invariant:
-        rp = vlib.replay_path(prop, "model-counterexample")
-        open(rp, "w").write(mc.out[-20000:])
-        violations.append({"key": f"model:{mc.invariant}", "what": f"TLC: invariant {mc.invariant} violated in {mc_cfg} (specification-level counterexample)", "replay": rp})
-    elif not mc.ok:
-        raise vlib.ToolError(f"TLC failed on {mc_cfg}:\n" + mc.out[-3000:])
+    mc_cfgs = mc_quick if tier == "quick" else mc_thorough
+    mc_cfgs = [mc_cfgs] if isinstance(mc_cfgs, str) else list(mc_cfgs)
+    mc_runs = []
+    for mc_cfg in mc_cfgs:
+        mc = vlib.tlc("MC_core", cfg=mc_cfg, workers=6 if tier == "quick" else 12, timeout=1200 if tier == "quick" else 6000,
+                      coverage=False, name=f"{prop}-mc", xmx="10g")
+        if mc.invariant:
+            rp = vlib.replay_path(prop, "model-counterexample")
+            open(rp, "w").write(mc.out[-20000:])
+            violations.append({"key": f"model:{mc.invariant}", "what": f"TLC: invariant {mc.invariant} violated in {mc_cfg} (specification-level counterexample)", "replay": rp})
+        elif not mc.ok:
+            raise vlib.ToolError(f"TLC failed on {mc_cfg}:\n" + mc.out[-3000:])
+        mc_runs.append({"config": mc_cfg, "distinct_states": mc.distinct, "transitions": mc.generated, "depth": mc.depth})
+    mc_cfg = "+".join(mc_cfgs)
+    mc.distinct = sum(r["distinct_states"] or 0 for r in mc_runs); mc.generated = sum(r["transitions"] or 0 for r in mc_runs)
     zero = [a for a in mc.coverage_zero_actions() if a not in ("SimNext", "Progress", "SimOther")]
     # --- 2. behaviours from the specification
     if ctx.get("replay"):
@@ -109,7 +115,7 @@ def run_core(ctx, prop, need_stats=(), need_shapes=(), sim_cfg="SIM_core", mc_qu
             jobs.append((c, part, per, num, depth))
         # all configurations are generated concurrently (each with its own TLC processes)
         with cf.ThreadPoolExecutor(max_workers=len(jobs)) as ex:
-            outs = list(ex.map(lambda j: gen_behaviours(j[0], "MC_core", j[1], j[2], j[3], j[4], seed, timeout=600 if tier == "quick" else 3000), jobs))
+            outs = list(ex.map(lambda j: gen_behaviours(j[0], "MC_core", j[1], j[2], j[3], j[4], seed, timeout=1500 if tier == "quick" else 6000), jobs))
         nb = sum(o[0] for o in outs); gen_s = max(o[1] for o in outs); cached = all(o[2] for o in outs)
         with open(beh, "w") as f:
             for part in parts:
@@ -229,7 +235,7 @@ def run_core(ctx, prop, need_stats=(), need_shapes=(), sim_cfg="SIM_core", mc_qu
                 "distinct_nontrivial = distinct projected member states (epoch, leaf, tree shape, key positions, cache) seen in the implementation. " + extra_rule,
         "samples": [sample_behaviour(beh)],
         "exhaustive": False,
-        "model_config": mc_cfg, "model_depth": mc.depth, "model_actions_never_taken": zero,
+        "model_runs": mc_runs, "model_config": mc_cfg, "model_depth": mc.depth, "model_actions_never_taken": zero,
         "trace_validation": drv_stats, "behaviour_shapes": shapes, "replay_stats": summ["stats"], "replay_configs": summ["configs"],
         "violations_attributed_to_other_properties": [{"props": v["props"], "kind": v["kind"], "what": v["what"][:200]} for v in others[:5]],
         "invariants": invariants_note, "shapes_not_reached_this_run": vac,
